@@ -38,10 +38,14 @@ type c20Case struct {
 	StdinFile bool      `json:"stdinfile,omitempty"` // stdin is a regular file (shell redirection) instead of a pipe
 	Rerun     bool      `json:"rerun"`               // compress a longer version of the file first, then the real one (output file exists already)
 	Umask     int       `json:"umask,omitempty"`     // the umask the command runs under (the harness itself creates its files with exact modes)
+	NoFile    int       `json:"nofile,omitempty"`    // descriptor limit (ulimit -n) the commands run under; 0 = the sandbox's
 }
 
 // c20Umask is the umask of the commands of the case being run (cases run one at a time per process).
 var c20Umask int
+
+// c20NoFile: the descriptor limit of the commands of the case being run (0: unchanged). The tool works on one file at a time.
+var c20NoFile int
 
 var sizeCodes = map[string]int{"": 7, "64K": 4, "256K": 5, "1M": 6, "4M": 7}
 
@@ -100,7 +104,11 @@ func lz4cIn(dir string, stdin []byte, asFile bool, args ...string) (stdout, stde
 	for _, a := range args {
 		q = append(q, shQuote(a))
 	}
-	cmd := exec.Command("/bin/sh", "-c", fmt.Sprintf("umask %03o; exec ", c20Umask)+strings.Join(q, " "))
+	limit := ""
+	if c20NoFile > 0 {
+		limit = fmt.Sprintf("ulimit -n %d; ", c20NoFile)
+	}
+	cmd := exec.Command("/bin/sh", "-c", limit+fmt.Sprintf("umask %03o; exec ", c20Umask)+strings.Join(q, " "))
 	cmd.Dir = dir
 	cmd.Stdin = bytes.NewReader(stdin)
 	if asFile {
@@ -148,6 +156,11 @@ func runC20(c c20Case, rec *stat.Rec) *stat.Failure {
 	defer func() { c20Umask = 0 }()
 	if c.Umask != 0 {
 		rec.Class(fmt.Sprintf("umask/%03o", c.Umask))
+	}
+	c20NoFile = c.NoFile
+	defer func() { c20NoFile = 0 }()
+	if c.NoFile != 0 {
+		rec.Class(fmt.Sprintf("many-files/%d-files-under-a-limit-of-%d-descriptors", len(c.Files), c.NoFile))
 	}
 	rec.Eval()
 	bsCode := sizeCodes[c.Size]
@@ -413,8 +426,24 @@ const c20Rule = "the lz4c binary built from the working tree (alternate go.mod w
 	"x -l {absent,0,1,2,5,9} x -c {absent,1,2}; optionally the output file already exists from an earlier, longer version of the input. Oracle: exit status 0 and every expected output present; " +
 	"x.lz4 is exactly one strictly valid frame (independent parser) whose content is the file; the header shows what the usage text says (-bc => block checksums, -sc => no content checksum, default " +
 	"=> content checksum, -size => block-size code); -l n => bytes equal to the library Writer at Level n (differential); same permission bits; uncompress restores bytes and permission bits. " +
-	"File names: f<i>.dat or (1 in 4) one of {x.lz4, archive.lz4.bak, store.lz4.d/data, a.b.c.tar, noext, 'with space.txt', .hidden, dir/sub/file.bin, n.lz4.lz4}. " +
+	"Pinned: one invocation over 52 / 84 small files under a limit of 32 / 64 descriptors (ulimit -n; the tool works on one file at a time). File names: f<i>.dat or (1 in 4) one of {x.lz4, archive.lz4.bak, store.lz4.d/data, a.b.c.tar, noext, 'with space.txt', .hidden, dir/sub/file.bin, n.lz4.lz4}. " +
 	"Non-trivial = file larger than one block or a non-default flag; distinct by (flags, size, content)."
+
+// TestC20ManyFiles: one invocation over more files than the process may hold descriptors (the tool handles one file at a time).
+func TestC20ManyFiles(t *testing.T) {
+	rec := stat.For("C20")
+	rec.SetRule(c20Rule)
+	if shard != 0 {
+		return
+	}
+	for _, lim := range []int{32, 64} {
+		c := c20Case{Size: "64K", Level: -1, NoFile: lim, BC: lim == 64}
+		for i := 0; i < lim+20; i++ {
+			c.Files = append(c.Files, c20File{Data: gen.Data{Segs: []gen.Seg{{K: "text", N: 50 + 37*i, S: uint64(i), P: 3}}}, Mode: 0o644})
+		}
+		pinned(t, "C20", "C20/cli", c, runC20)
+	}
+}
 
 func TestC20(t *testing.T) {
 	rec := stat.For("C20")
